@@ -6,6 +6,8 @@
 #include "sim.h"
 #include <sys/mman.h>
 #include <string.h>
+#include <strings.h>
+#include <limits.h>
 #include <stdarg.h>
 #include <stdio.h>
 #include <errno.h>
@@ -267,12 +269,15 @@ static void activate(int i, size_t size)
 #endif
 }
 
+static int sa_own_request;      /* >0 while the allocator itself asks for a block of no bytes */
 void *sim_malloc(size_t n)
 {
     int i = -1;
     if (!arena_ok) return malloc(n);
     sa_stat_allocs++;
+    sim_alloc_step();
     if (n > MAX_REQUEST) { errno = ENOMEM; return NULL; }
+    if (n == 0 && cfg.zero_null && !sa_own_request) { probe_hit("malloc_of_nothing_gave_null"); return NULL; }      /* "either a null pointer is returned, or ..." (ISO C 7.22.3) */
     if (cfg.reuse != REUSE_NEVER && nfree) {
         int depth = cfg.reuse == REUSE_QUARANTINE ? 4 : 0;      /* leave the newest `depth` frees alone */
         for (int k = nfree - 1 - depth, tries = 0; k >= 0 && tries < 8; k--, tries++) {
@@ -337,7 +342,11 @@ void *sim_realloc(void *p, size_t n)
     size_t old;
     if (!p) return sim_malloc(n);
     if (!arena_ok || !sa_owns(p)) return realloc(p, n);
-    if (n == 0) { sim_free(p); return NULL; }
+    if (n == 0) {
+        sim_free(p);
+        if (cfg.realloc0_unique) { void *q0; probe_hit("realloc_to_nothing_gave_a_block"); sa_own_request++; q0 = sim_malloc(0); sa_own_request--; return q0; }      /* the other reading of realloc(p, 0) */
+        return NULL;
+    }
     if (n > MAX_REQUEST) { errno = ENOMEM; return NULL; }
     i = find_slot((uintptr_t)p);
     if (i < 0 || blk[i].addr != (uintptr_t)p) { memory_event("realloc-of-non-block-pointer", p); return sim_malloc(n); }
@@ -451,3 +460,38 @@ __attribute__((noinline)) void paint_stack(int byte, size_t nbytes)
     for (size_t i = 0; i < nbytes; i++) p[i] = (unsigned char)byte;
     __asm__ volatile("" ::"r"(p) : "memory");
 }
+
+/* ------------------------------------------------------------------ libc answers that ISO C leaves open (added after seeded round 14)
+ * memcpy: for ranges that do not overlap every copying order gives the same result, so the real memcpy does the work; for ranges that do
+ * overlap (undefined behaviour, which glibc's backwards-copying memcpy often forgives) the bytes are copied one by one, front to back in
+ * runs with an even seed and back to front in the others -- the two orders real implementations use.
+ * strcmp & co: only the sign of the result is specified.  Per run (seed) the library sees the byte difference as glibc gives it, -1/+1,
+ * the difference shifted left by eight bits (its low byte is zero) or INT_MIN/INT_MAX. */
+static int libc_mode(void) { return R.plan ? (int)((R.plan->seed >> 1) & 3) : 0; }
+void *sim_memcpy(void *d, const void *s, size_t n)
+{
+    unsigned char *dd = d; const unsigned char *ss = s;
+#ifdef SIM_ASAN
+    return memcpy(d, s, n);      /* the sanitizer's own memcpy reports overlapping ranges as such (memcpy-param-overlap), which is the stricter answer */
+#endif
+    if (!n || dd == ss || dd + n <= ss || ss + n <= dd) return memcpy(d, s, n);
+    probe_hit("memcpy_ranges_overlap");
+    if (R.plan && (R.plan->seed & 1)) { for (size_t i = n; i-- > 0;) dd[i] = ss[i]; }
+    else { for (size_t i = 0; i < n; i++) dd[i] = ss[i]; }
+    return d;
+}
+static int cmp_answer(int d)
+{
+    if (!d) return 0;
+    switch (libc_mode()) {
+    case 1: return d < 0 ? -1 : 1;
+    case 2: return d < 0 ? -((-d) << 8) : d << 8;
+    case 3: return d < 0 ? INT_MIN : INT_MAX;
+    default: return d;
+    }
+}
+int sim_strcmp(const char *a, const char *b) { return cmp_answer(strcmp(a, b)); }
+int sim_strncmp(const char *a, const char *b, size_t n) { return cmp_answer(strncmp(a, b, n)); }
+int sim_strcasecmp(const char *a, const char *b) { return cmp_answer(strcasecmp(a, b)); }
+int sim_strncasecmp(const char *a, const char *b, size_t n) { return cmp_answer(strncasecmp(a, b, n)); }
+int sim_memcmp(const void *a, const void *b, size_t n) { return cmp_answer(memcmp(a, b, n)); }
